@@ -512,7 +512,7 @@ fn axisw_strategy() -> impl Strategy<Value = AxisWCase> {
 
 pub fn run_c18(ctx: &Ctx) {
     let t = ctx.tier();
-    ctx.run_proptest("bulk-quant", t.pick(30_000, 1_000_000), bulk_qcase_strategy(t.pick(40, 300)), &check_bulk_quant);
+    ctx.run_proptest("bulk-quant", t.pick(30_000, 1_000_000), bulk_qcase_strategy(t.pick(120, 300)), &check_bulk_quant);
     ctx.run_proptest("bulk-select", t.pick(20_000, 500_000), bulk_select_strategy(t.pick(60, 300)), &check_bulk_select);
     ctx.run_proptest("bulk-moments", t.pick(20_000, 400_000), moments_strategy(), &check_moments);
     ctx.run_proptest("bulk-axis-weighted", t.pick(20_000, 400_000), axisw_strategy(), &check_axis_weighted);
